@@ -37,7 +37,7 @@ func dumpCmp(y coqx.Syn, c *logql_parser.Comparison) string {
 	if err != nil {
 		fail("comparison value " + c.Val)
 	}
-	return y.Some(y.Rec("cmp_fn", fn, "cmp_val", y.Str(fmt.Sprintf("%f", v))))
+	return y.Some(y.Rec("cmp_fn", fn, "cmp_val", y.Str(floatValText(v))))
 }
 
 func durNs(t, unit string) int64 {
